@@ -37,7 +37,8 @@ elab "model_current" : tactic => do
   catch _ =>
     match ty.eq? with
     | some (_, lhs, _) =>
-      let names := (← listStrings lhs).eraseDups
+      -- the lists have several hundred entries: `whnf` of the filter needs a deeper recursion limit
+      let names := (← withTheReader Core.Context (fun c => { c with maxRecDepth := 65536 }) (listStrings lhs)).eraseDups
       let shown := ", ".intercalate names
       throwError "model currency: {names.length} pinned Go declaration(s) (transcribed functions, their same-package callees, constants, variables) changed since the model was validated: {shown} -- re-validate the model(s), then run tools/update_fingerprints.py"
     | none => throwError "model_current: goal is not of the form `stale xs = []`"
